@@ -478,12 +478,78 @@ def check_spin_range_not_cached_mutable(ctx: Check, tree: Tree) -> None:
         ctx.ok("R-CACHE", "src/ampform/helicity/align", f"the {len(sources)} memoised mutable results of helicity.align are never written")
 
 
+def check_rotation_chain_order(ctx: Check, tree: Tree) -> None:
+    """R-CHAINORDER: the helicity rotations of the axis-angle chain do not commute.  The k-th pair of
+    summation indices (m' = index k, projection = index k+1, k = 0 at the rotated particle's own
+    helicity) carries the angles of the k-th state on the way UP from the rotated state to the
+    initial state.  Accepted idioms: the recursion rotated_state -> get_parent_id(...) with a counter,
+    or `for k, state in enumerate(list_decay_chain_ids(topology, rotated_state)[...])`.  Walking
+    the chain downwards (reversed(...)) attaches the angles the other way round: single-topology
+    intensities do not notice (unitarity), interfering topologies are no longer rotation invariant."""
+    fn = tree.func("ampform.helicity.align.axisangle::formulate_helicity_rotation_chain")
+    rot_calls = [c for c in walk_function(fn.node, nested=True) if isinstance(c, ast.Call) and tree.callee(c, tree.func_of(c) or fn) == "ampform.helicity.align.axisangle::formulate_helicity_rotation"]
+    if len(rot_calls) != 1:
+        raise AnalysisError(f"{fn.qual}: expected one call of formulate_helicity_rotation, found {len(rot_calls)}")
+    call = rot_calls[0]
+    owner = tree.func_of(call) or fn
+    key = f"{fn.qual}::chain-direction"
+    if owner is not fn:
+        # recursive generator idiom
+        rec = [c for c in walk_function(owner.node) if isinstance(c, ast.Call) and isinstance(c.func, ast.Name) and c.func.id == owner.name]
+        first = [c for c in walk_function(fn.node, nested=False) if isinstance(c, ast.Call) and isinstance(c.func, ast.Name) and c.func.id == owner.name]
+        rd = RD(fn.node)
+        up = False
+        for c in rec:
+            if c.args and isinstance(c.args[0], ast.Name):
+                from ..prov import _rd_for
+
+                ord_ = _rd_for(owner, {})
+                defs = ord_.reaching(c.args[0])
+                up = bool(defs) and all(d.value is not None and "get_parent_id(" in unparse(d.value) for d in defs)
+        starts = bool(first) and all(c.args and unparse(c.args[0]) == fn.params[1] for c in first)
+        problems = []
+        if not up:
+            problems.append("the recursion does not continue with get_parent_id(topology, state_id)")
+        if not starts:
+            problems.append(f"the recursion does not start at `{fn.params[1]}`")
+        kw = {k.arg: unparse(k.value) for k in call.keywords}
+        mp, sp_ = kw.get("m_prime", ""), kw.get("spin_projection", "")
+        ord_ = _rd_for(owner, {})
+        def root_index(expr_txt, kwname):
+            node = next((k.value for k in call.keywords if k.arg == kwname), None)
+            if node is None:
+                return None
+            txt = unparse(node) + " ".join(unparse(d.value) for d in ord_.closure(ord_.uses(node)) if isinstance(d.value, ast.AST))
+            return "next" if "+ 1]" in txt.replace("+1]", "+ 1]") else "current"
+        if root_index(mp, "m_prime") != "current" or root_index(sp_, "spin_projection") != "next":
+            problems.append("m_prime / spin_projection do not use index k / k+1 of the counter")
+        ctx.verdict(not problems, "R-CHAINORDER", key, tree.loc(call), "axis-angle chain: recursion from the rotated state upwards (get_parent_id), pair k of indices carries the angles of the k-th state on the way up", problems or None)
+        return
+    # loop idiom
+    loops = [a for a in ancestors(call) if isinstance(a, ast.For)]
+    if not loops:
+        raise AnalysisError(f"{fn.qual}: rotation neither in a recursive helper nor in a loop")
+    loop = loops[0]
+    it = loop.iter
+    rd = RD(fn.node)
+    if not (isinstance(it, ast.Call) and isinstance(it.func, ast.Name) and it.func.id == "enumerate" and it.args):
+        raise AnalysisError(f"{fn.qual}: loop over `{unparse(it)[:50]}` is not enumerate(<chain>)")
+    src = it.args[0]
+    texts = [unparse(src)] + [unparse(d.value) for d in rd.closure(rd.uses(src)) if isinstance(d.value, ast.AST)]
+    if not any("list_decay_chain_ids(" in t for t in texts):
+        raise AnalysisError(f"{fn.qual}: the chain `{unparse(src)[:50]}` does not come from list_decay_chain_ids")
+    down = any(t.startswith("reversed(") or "reversed(" in t or "[::-1]" in t for t in texts)
+    ctx.verdict(not down, "R-CHAINORDER", key, tree.loc(loop), "axis-angle chain: index pair k carries the angles of the k-th state on the way up from the rotated state (list_decay_chain_ids order)",
+                None if not down else f"the chain is walked downwards (`{unparse(src)[:50]}`): the non-commuting rotations are multiplied in reversed order")
+
+
 def run(ctx: Check, tree: Tree) -> None:
     ctx.decided += [
         "no `.remove(x)` reachable in the package can raise: each is dominated by a membership test, inside a handler, or covered by a recorded structural invariant (R-GUARD)",
         "the PoolSum of a helicity/Wigner rotation ranges over create_spin_range(s) of the same s that is j of its Wigner-D, and every caller passes spin and masslessness of the rotated state (R-WIRING)",
         "create_spin_range loops from -s in steps of +1 while <= s (R-RANGE)",
         "DPD alignment: spin, helicity symbols, state index and pool of every Wigner-d refer to the same outer state (R-WIRING)",
+        "axis-angle chain: the k-th index pair carries the angles of the k-th state on the way up from the rotated state (R-CHAINORDER)",
         "no memoised mutable result of helicity.align (e.g. a cached spin range) is written by any caller (R-CACHE)",
         "DPD alignment: every term reaching the PoolSum summand is base[summation indices] times one rotation per outer state (R-SUMMAND)",
     ]
@@ -496,5 +562,6 @@ def run(ctx: Check, tree: Tree) -> None:
     ctx.section(check_wiring, ctx, tree)
     ctx.section(check_spin_range, ctx, tree)
     ctx.section(check_dpd_wiring, ctx, tree)
+    ctx.section(check_rotation_chain_order, ctx, tree)
     ctx.section(check_dpd_summand, ctx, tree)
     ctx.section(check_spin_range_not_cached_mutable, ctx, tree)
